@@ -25,8 +25,8 @@ CLAIMED = {
     ref='DESIGN.md section 4 C08, Appendix A.7, B.4, B.21'),
 
  'C04': dict(technique='Lean 4 proof (state-machine invariant of the time-macro finder over all read splits; induction over the recorded include list for the manifest check, all option combinations and file-system evolutions) + differential correspondence on the real finder and on real files + stale-hit monitor',
-    text='finder_sound holds for every split of a file into non-empty reads; manifest_hit_sound_partial shows that a manifest hit implies unchanged contents of every recorded header for all option combinations (after the fix of F-C04-a) except headers with time-macro text under default handling (F-C04-b, kernel-checked witness). Both models are replayed against the real TimeMacroFinder / chunked Digest and the real PreprocessorCacheEntry on real files.',
-    note='Trusted: Lean kernel, Model/TimeMacro.lean, Model/Manifest.lean (tied by h_c04), kernel ctime monotonicity (theorem hypothesis). Not yet modelled: the include recorder and line-marker scanner (C04 second tier).',
+    text='finder_sound holds for every split of a file into non-empty reads; manifest_hit_sound shows that a manifest hit implies unchanged contents of every recorded header for all option combinations and all file-system evolutions (after the fixes of F-C04-a and F-C04-b: headers with time-macro text are content-compared too), time_macro_header_hit that __DATE__ / __TIME__ headers never hit and a __TIMESTAMP__ header hits only at its recorded mtime; recorder_sound covers the include recorder. Both models are replayed against the real TimeMacroFinder / chunked Digest and the real PreprocessorCacheEntry on real files.',
+    note='Trusted: Lean kernel, Model/TimeMacro.lean, Model/Manifest.lean (tied by h_c04), kernel ctime monotonicity (theorem hypothesis). Open: F-C04-d (lexical .. normalisation through a symlinked directory).',
     ref='DESIGN.md section 4 C04, Appendix A.1, B.1, B.11'),
 
  'C18': dict(technique='Lean 4 proof (invariant over all message sequences with the allocation handler split at its unlock points; transition-table theorem) + differential correspondence on the real Scheduler through an in-crate driver with nested handler calls + invariant monitor on the private maps',
